@@ -318,5 +318,11 @@ def r5_evaluate(chk: Check) -> None:
     chk.decide(t.count("is UNRESOLVABLE") >= 3, "C10.R5", nested, "nested evaluation propagates UNRESOLVABLE (key, value, item)", "an unresolvable nested value is embedded in the body", nested.loc())
 
 
+def rfwd_forwarding(chk: Check) -> None:
+    from . import shared
+
+    shared.forwarding_rule(chk, "C10.FWD", ('specs/openapi/schemas.py:BaseOpenAPISchema.add_link', 'specs/openapi/stateful/'), "link definition fields", 1)
+
+
 def rules(tier: str) -> list:  # type: ignore[type-arg]
-    return [r1_exhaustive, r2_resolvability, r3_errors, r4_status_matching, r5_evaluate]
+    return [r1_exhaustive, r2_resolvability, r3_errors, r4_status_matching, r5_evaluate, rfwd_forwarding]
